@@ -83,7 +83,7 @@ def magnetic_new(name):
 
 
 def gen_cases(tier, seed):
-    nsets = 8 if tier == "quick" else 300
+    nsets = 40 if tier == "quick" else 300
     cases = []
     for ver, tab in sorted(table().items()):
         for new in sorted(tab):
